@@ -21,6 +21,7 @@ type coro struct {
 	ready   func() bool // nil = runnable
 	cur     *frame
 	started bool
+	vc      vclock // race.go
 }
 
 type sched struct {
@@ -42,6 +43,7 @@ func (in *Interp) spawn(f func(), name string) *coro {
 	s := in.co
 	c := &coro{id: len(s.coros), name: name, resume: make(chan struct{}, 1)}
 	s.coros = append(s.coros, c)
+	in.raceSpawn(c)
 	go func() {
 		<-c.resume
 		if s.dead {
@@ -218,6 +220,7 @@ func (in *Interp) liveCoros() []string {
 // all sharing a group, and only one of them can fire.
 
 type selGroup struct {
+	vc    vclock // what the completing counterpart released (race.go)
 	fired bool
 	index int   // case that fired
 	val   Value // received value
@@ -225,6 +228,7 @@ type selGroup struct {
 }
 
 type waiter struct {
+	vc    vclock // the registering goroutine's clock at registration
 	g     *selGroup
 	index int
 	val   Value // value to send (send waiters)
@@ -257,10 +261,18 @@ func (in *Interp) trySend(ch *ChanV, v Value) bool {
 	}
 	if w := in.liveWaiter(&ch.recvq); w != nil {
 		w.g.fired, w.g.index, w.g.val, w.g.ok = true, w.index, v, true
+		w.g.vc = in.raceSnapshot()
+		if ch.cap == 0 {
+			in.raceAcquireVC(w.vc) // the receive began before the send completes
+		}
 		return true
 	}
 	if len(ch.buf) < ch.cap {
 		ch.buf = append(ch.buf, v)
+		if in.race != nil {
+			in.raceAcquireVC(ch.recvVC) // a slot was freed by an earlier receive (coarser than the k-th/k+C-th rule)
+			ch.bufVC = append(ch.bufVC, in.raceSnapshot())
+		}
 		return true
 	}
 	return false
@@ -271,18 +283,32 @@ func (in *Interp) tryRecv(ch *ChanV) (Value, bool, bool) {
 	if len(ch.buf) > 0 {
 		v := ch.buf[0]
 		ch.buf = ch.buf[1:]
+		if in.race != nil {
+			if len(ch.bufVC) > 0 {
+				in.raceAcquireVC(ch.bufVC[0])
+				ch.bufVC = ch.bufVC[1:]
+			}
+			ch.recvVC = vcJoin(vcCopy(ch.recvVC), in.raceSnapshot())
+		}
 		// a blocked sender can now move its value into the buffer
 		if w := in.liveWaiter(&ch.sendw); w != nil {
 			ch.buf = append(ch.buf, w.val)
 			w.g.fired, w.g.index = true, w.index
+			if in.race != nil {
+				ch.bufVC = append(ch.bufVC, w.vc)
+				w.g.vc = vcCopy(ch.recvVC)
+			}
 		}
 		return v, true, true
 	}
 	if w := in.liveWaiter(&ch.sendw); w != nil {
 		w.g.fired, w.g.index = true, w.index
+		in.raceAcquireVC(w.vc)
+		w.g.vc = in.raceSnapshot()
 		return w.val, true, true
 	}
 	if ch.closed {
+		in.raceAcquireVC(ch.closeVC)
 		return in.zero(ch.et), false, true
 	}
 	return nil, false, false
@@ -296,8 +322,9 @@ func (in *Interp) chanSend(ch *ChanV, v Value) {
 		return
 	}
 	g := &selGroup{}
-	ch.sendw = append(ch.sendw, &waiter{g: g, val: v})
+	ch.sendw = append(ch.sendw, &waiter{g: g, val: v, vc: in.raceSnapshot()})
 	in.yieldUntil(func() bool { return g.fired || ch.closed })
+	in.raceAcquireVC(g.vc)
 	if !g.fired {
 		g.fired = true
 		panic(goPanic{msg: "send on closed channel", site: in.site()})
@@ -312,12 +339,14 @@ func (in *Interp) chanRecv(ch *ChanV) (Value, bool) {
 		return v, ok
 	}
 	g := &selGroup{}
-	ch.recvq = append(ch.recvq, &waiter{g: g})
+	ch.recvq = append(ch.recvq, &waiter{g: g, vc: in.raceSnapshot()})
 	in.yieldUntil(func() bool { return g.fired || ch.closed })
 	if g.fired {
+		in.raceAcquireVC(g.vc)
 		return g.val, g.ok
 	}
 	g.fired = true
+	in.raceAcquireVC(ch.closeVC)
 	return in.zero(ch.et), false
 }
 
@@ -385,14 +414,15 @@ func (in *Interp) selectOp(fr *frame, ins *ssa.Select) Value {
 	}
 	// block: register on every channel
 	g := &selGroup{}
+	regVC := in.raceSnapshot()
 	for i, c := range cases {
 		if c.ch == nil {
 			continue
 		}
 		if c.send {
-			c.ch.sendw = append(c.ch.sendw, &waiter{g: g, index: i, val: c.val})
+			c.ch.sendw = append(c.ch.sendw, &waiter{g: g, index: i, val: c.val, vc: regVC})
 		} else {
-			c.ch.recvq = append(c.ch.recvq, &waiter{g: g, index: i})
+			c.ch.recvq = append(c.ch.recvq, &waiter{g: g, index: i, vc: regVC})
 		}
 	}
 	anyClosed := func() bool {
@@ -405,6 +435,7 @@ func (in *Interp) selectOp(fr *frame, ins *ssa.Select) Value {
 	}
 	in.yieldUntil(func() bool { return g.fired || anyClosed() })
 	if g.fired {
+		in.raceAcquireVC(g.vc)
 		res[0] = st.Const(uint64(g.index), 64)
 		if !cases[g.index].send {
 			res[1] = st.Bool(g.ok)
